@@ -41,7 +41,7 @@ def mandatory_bins(tier):
     b += ["key_trailing_zero_%d" % z for z in (1, 2, 3, 15)]
     b += ["crc_lo_00:cust", "crc_hi_00:cust", "crc_both_00:cust", "crc_lo_00:update", "crc_hi_00:update", "crc_both_00:update",
           "decryptors_all", "decryptors_single", "decryptors_partial", "pass_through_block", "encrypted_config_component", "customer_key_present", "customer_key_absent",
-          "version_00", "version_ff", "version_80", "code_all_zero", "code_ends_00", "config_blob_trailing_zero_padding"]
+          "version_00", "version_ff", "version_80", "code_all_zero", "code_ends_00", "config_blob_trailing_zero_padding", "key_all_zero", "ecc_distractor_decryptors_before_the_matching_one", "ecc_distractor_encryptors_on_write"]
     return b
 
 
@@ -90,8 +90,23 @@ def check_case(ns, ctx, case, conf, key, specs, subsets):
     f = B.Bec2File(bf3, GB.real_auth_blocks(ns, specs), key)
     buf = io.StringIO()
     ctx.ev()
+    has_ecc = any(s["kind"] == "ecc" for s in specs)
+
+    def distractors(n):
+        """ECC (de)cryptors for OTHER selectors, placed before the matching one: the selector filter must skip them"""
+        used = {s["sel"] for s in specs if s["kind"] == "ecc"}
+        out = []
+        for sel in range(4):
+            if sel not in used and len(out) < n:
+                out.append(B.EccDecryptor(sel, GB.private_key_obj(ns, 1000 + sel)))
+        return out
+
+    wenc = GB.write_encryptors(ns, specs)
+    if has_ecc and len(case.comps) % 2 == 0:
+        wenc = distractors(2) + wenc
+        ctx.bin("ecc_distractor_encryptors_on_write")
     try:
-        f.write_file(buf, GB.write_encryptors(ns, specs))
+        f.write_file(buf, wenc)
         ctx.mon("write_file")
     except Exception as e:
         ctx.violation("writer_raises_on_object_in_domain", {"exc": fmt_exc(e)}, rp)
@@ -111,8 +126,12 @@ def check_case(ns, ctx, case, conf, key, specs, subsets):
             ctx.bin("decryptors_single")
         else:
             ctx.bin("decryptors_partial")
+        renc = GB.read_encryptors(ns, specs, subset)
+        if has_ecc and any(specs[i]["kind"] == "ecc" for i in subset) and len(subset) % 2 == 1:
+            renc = distractors(3) + renc
+            ctx.bin("ecc_distractor_decryptors_before_the_matching_one")
         try:
-            back = B.Bec2File.read_file(io.StringIO(text), GB.read_encryptors(ns, specs, subset), True)
+            back = B.Bec2File.read_file(io.StringIO(text), renc, True)
             ctx.mon("read_file")
         except Exception as e:
             kinds = "+".join(specs[i]["kind"] for i in sorted(subset))
@@ -178,7 +197,7 @@ def run_shard(spec, ctx):
                 elif s["code"][-1] == 0:
                     ctx.bin("code_ends_00")
         # session key
-        mode = (idx // len(lists)) % 10
+        mode = (idx // len(lists)) % 9
         aes = [s for s in specs if s["kind"] in ("cust", "update")]
         key = rng.randbytes(16)
         if mode in (0, 1, 2) and aes:
@@ -192,8 +211,10 @@ def run_shard(spec, ctx):
             ctx.bin("key_trailing_zero_%d" % z)
         elif mode == 7:
             key = G.gen_key(rng)
-            if key == bytes(16):
-                key = b"\x00" * 15 + b"\x01"
+        elif mode == 8:
+            key = bytes(16)  # the all-zero key given explicitly is a legal session key
+        if key == bytes(16):
+            ctx.bin("key_all_zero")
         for s in specs:
             if s["kind"] == "update":
                 if s["version"] in (0, 0x80, 0xFF):
